@@ -386,6 +386,8 @@ def run_generic(ctx):
         design_mc(ctx)
     if ctx.prop == "C05":
         views_mc(ctx)
+    if ctx.prop == "C11":
+        opencode_mc(ctx)
     cases = list(ctx.cases.values())
     for variant in ("dbg", "rel"):
         ev = cfg["events"] == "all" or (cfg["events"] and (variant == "dbg" or not ctx.quick()))
@@ -909,6 +911,25 @@ def design_mc(ctx):
             fs, n, st["distinct"], st["wall_s"]))
     ctx.extra["design_model_checking"] = {"module": "spec/MC_SasLexer.tla", "invariants": DESIGN_INVS.split() + ["Progress"],
                                           "runs": runs}
+
+
+def opencode_mc(ctx):
+    """C11 at the design level: the operational model (SasLexer.tla) against the declarative reference lexer
+    (OpenCode.tla) on every macro-free input of at most N fragments of the open-code set (regime R1, full history)
+    and, in the thorough tier, on the R2 representatives as well."""
+    runs = []
+    n = 3 if ctx.quick() else 4
+    st, _ = mc_run(ctx.dir, "oc-r1", "open", 40, 9, False, calls=9, r1_frags=n, invs="OpenCodeEq NoFault", progress=False)
+    runs.append(st)
+    if not ctx.quick():
+        st2, _ = mc_run(ctx.dir, "oc-r2", "open", 12, 3, False, calls=9, invs="OpenCodeEq NoFault", progress=False)
+        runs.append(st2)
+    for r in runs:
+        ctx.states += r["distinct"]
+        ctx.transitions += r["states"]
+        log("[mc] OpenCodeEq %s: %d distinct states, %.0fs, model = reference lexer on macro-free inputs" % (
+            r["regime"], r["distinct"], r["wall_s"]))
+    ctx.extra["design_model_checking"] = {"module": "spec/MC_SasLexer.tla", "invariants": ["OpenCodeEq", "NoFault"], "runs": runs}
 
 
 def views_mc(ctx):
